@@ -307,6 +307,41 @@ func c10Inputs(l *Lab, cfg c10Cfg, rnd *rand.Rand) []c10Input {
 			})
 		}
 	}
+	// ---- UTF-16 strings: lone / trailing surrogate halves, non-characters, BOM in every string field
+	{
+		u16 := func(units ...uint16) []byte {
+			b := make([]byte, 2*len(units))
+			for i, c := range units {
+				binary.LittleEndian.PutUint16(b[2*i:], c)
+			}
+			return b
+		}
+		tails := map[string][]byte{
+			"trailing high surrogate": u16('p', 'c', 0xD83D), "trailing low surrogate": u16('p', 'c', 0xDE00), "pair then high": u16(0xD83D, 0xDE00, 0xD83D),
+			"only high": u16(0xD800), "only low": u16(0xDFFF), "reversed pair": u16('a', 0xDE00, 0xD83D), "high high": u16(0xD83D, 0xD83D), "non-characters": u16(0xFFFF, 0xFFFE, 0xFDD0),
+			"bom": u16(0xFEFF, 'x'), "nul nul": u16(0, 0), "high then nul": u16('a', 0xD83D, 0), "odd byte after high": append(u16('a', 0xD83D), 0x41),
+		}
+		for tn, raw := range tails {
+			tn, raw := tn, raw
+			add("utf16-string", "tunnel-create cookie: "+tn, func(w *c10World, rec *c10Rec) {
+				w.tunnelSend(rec, pick(len(raw)), 1, false, TunnelCreateRawCookie(0, 1, uint16(len(raw)), raw))
+			})
+			add("utf16-string", "tunnel-auth client name: "+tn, func(w *c10World, rec *c10Rec) {
+				b := make([]byte, 4)
+				binary.LittleEndian.PutUint16(b[2:], uint16(len(raw)))
+				w.tunnelSend(rec, pick(len(raw)+1), 2, false, Packet(PktTunnelAuth, append(b, raw...)))
+			})
+			add("utf16-string", "channel-create server name: "+tn, func(w *c10World, rec *c10Rec) {
+				w.tunnelSend(rec, pick(len(raw)), 3, false, Packet(PktChannelCreate, ChannelCreateRaw(1, 0, 3389, 3, uint16(len(raw)), raw)))
+			})
+			add("utf16-string", "channel-create alternate name: "+tn, func(w *c10World, rec *c10Rec) {
+				n := UTF16LE("127.0.0.1")
+				body := ChannelCreateRaw(1, 1, 3389, 3, uint16(len(n)), n)
+				body = append(append(body, byte(len(raw)), byte(len(raw)>>8)), raw...)
+				w.tunnelSend(rec, pick(len(raw)+1), 3, false, Packet(PktChannelCreate, body))
+			})
+		}
+	}
 	// ---- bodies: truncation at every byte, inner lengths
 	bodies := map[string]struct {
 		ty   uint16
@@ -780,7 +815,7 @@ func b64dec(s string) ([]byte, error) {
 
 func CheckC10(l *Lab, verifDir string) int {
 	rep := NewReport("C10", l.Tier, l.Seed, "exploration", verifDir)
-	rep.Rule = "hostile inputs against the race-instrumented real rdpgw (and the real rdpgw-auth with a PAM stand-in) in six configurations {TLS on/off} x {socket buffers set/unset} x {openid, ntlm, local+kerberos}: packet headers (type values, length fields 0..2^32-1, truncation), bodies truncated at every byte and with overwritten inner lengths, PRNG packet streams before/after authentication and at every phase, websocket frame abuse, legacy channel orderings and chunk syntax, raw HTTP, Authorization strings of every prefix length, NTLM messages with security buffers pointing anywhere and truncated at every byte, KDC-proxy DER mutations, mutated SPNEGO tokens, Basic credentials. Monitors: process exit, fault signatures in stderr of both processes (panic, http: panic serving, fatal error, runtime error), race reports, and a liveness probe (fresh well-formed tunnel / login) after every batch of 50 inputs; a faulty batch is re-run input by input on a fresh process to name the input. non-trivial = input was delivered to a live process; distinct = configuration x input"
+	rep.Rule = "hostile inputs against the race-instrumented real rdpgw (and the real rdpgw-auth with a PAM stand-in) in six configurations {TLS on/off} x {socket buffers set/unset} x {openid, ntlm, local+kerberos}: packet headers (type values, length fields 0..2^32-1, truncation), bodies truncated at every byte and with overwritten inner lengths, UTF-16 string fields with lone / trailing surrogate halves and non-characters, PRNG packet streams before/after authentication and at every phase, websocket frame abuse, legacy channel orderings and chunk syntax, raw HTTP, Authorization strings of every prefix length, NTLM messages with security buffers pointing anywhere and truncated at every byte, KDC-proxy DER mutations, mutated SPNEGO tokens, Basic credentials. Monitors: process exit, fault signatures in stderr of both processes (panic, http: panic serving, fatal error, runtime error), race reports, and a liveness probe (fresh well-formed tunnel / login) after every batch of 50 inputs; a faulty batch is re-run input by input on a fresh process to name the input. non-trivial = input was delivered to a live process; distinct = configuration x input"
 	rep.Assume("a panic recovered by net/http (http: panic serving) counts as a violation: the statement says the gateway answers or closes, not that it hits a runtime panic")
 	cfgs := []c10Cfg{
 		{"openid-plain", "openid", false, false},
